@@ -1129,3 +1129,125 @@ Proof.
   - (* NoElse *) exact I.
   - (* Else *) intros b Hb. exact Hb.
 Qed.
+
+(* ====================================================================== *)
+(* whole programs: top-level declarations and the control-flow fragment    *)
+(* ====================================================================== *)
+Definition TL (st st' : cstate) : Prop :=
+  top_ok st' /\ index (cur (csym st)) <= index (cur (csym st')) /\
+  exists new newc newb,
+    AOK new /\
+    ccode st' = ccode st ++ encode (strip new) /\
+    cconsts st' = cconsts st ++ newc /\
+    cbreaks st' = cbreaks st ++ map Z.of_N newb /\
+    (forall p, In p newb -> hole_at new (pcof st) p) /\
+    forall nc gc, N.of_nat (List.length (cconsts st')) <= nc -> index (cur (csym st')) <= gc ->
+      BOK nc gc new (pcof st) (AH 0) (AH 0) /\
+      forall p ra, In (p, ra) (holes nc gc new (pcof st) (AH 0)) -> In p newb.
+
+Lemma TL_refl st : top_ok st -> TL st st.
+Proof.
+  intro HT. split; [exact HT|]. split; [lia|]. exists [], [], []. split; [constructor|].
+  split; [simpl; rewrite app_nil_r; reflexivity|]. split; [rewrite app_nil_r; reflexivity|].
+  split; [simpl; rewrite app_nil_r; reflexivity|]. split; [intros p []|].
+  intros nc gc _ _. split; [split; simpl; auto|intros p ra []].
+Qed.
+
+Lemma TL_trans st st1 st2 : TL st st1 -> TL st1 st2 -> TL st st2.
+Proof.
+  intros (T1 & M1 & n1 & c1 & b1 & A1 & C1 & K1 & B1 & H1 & D1) (T2 & M2 & n2 & c2 & b2 & A2 & C2 & K2 & B2 & H2 & D2).
+  pose proof (pcof_app st st1 n1 C1 A1) as HP.
+  split; [exact T2|]. split; [lia|]. exists (n1 ++ n2), (c1 ++ c2), (b1 ++ b2).
+  split; [apply aok_app; assumption|].
+  split; [rewrite C2, C1, strip_app; unfold encode; rewrite flat_map_app, app_assoc; reflexivity|].
+  split; [rewrite K2, K1, app_assoc; reflexivity|].
+  split; [rewrite B2, B1, map_app, app_assoc; reflexivity|].
+  split.
+  { intros p Hp. apply in_app_or in Hp. destruct Hp as [Hp|Hp].
+    - apply hole_at_app_l. apply H1. exact Hp.
+    - apply hole_at_app_r. rewrite <- HP. apply H2. exact Hp. }
+  intros nc gc Hnc Hgc.
+  assert (Hnc1 : N.of_nat (List.length (cconsts st1)) <= nc) by (rewrite K2, app_length in Hnc; lia).
+  destruct (D1 nc gc Hnc1 ltac:(lia)) as [BK1 HL1].
+  destruct (D2 nc gc Hnc Hgc) as [BK2 HL2]. rewrite HP in BK2, HL2.
+  split; [eapply bok_app; eauto|].
+  intros p ra Hin. apply (holes_app_in nc gc n1 n2 (pcof st) _ _ _ (proj1 BK1)) in Hin.
+  destruct Hin as [Hin|Hin]; apply in_or_app; [left; apply (HL1 _ _ Hin)|right; apply (HL2 _ _ Hin)].
+Qed.
+
+Lemma TL_of_CTL st st' : top_ok st -> CTL st st' -> TL st st'.
+Proof.
+  intros HT (S & new & newc & newb & A & C & K & B & ND & H & D).
+  split; [unfold top_ok; rewrite S; exact HT|]. split; [rewrite S; lia|].
+  exists new, newc, newb. repeat (split; [assumption|]).
+  intros nc gc Hnc Hgc. rewrite S in Hgc.
+  assert (HG : globals_below (csym st) gc).
+  { intros n y HR. destruct (top_globals st HT n y HR) as [E1 E2]. split; [exact E1|lia]. }
+  destruct (D nc gc 0 Hnc HG) as [BK HL]. split; [exact BK|]. intros p ra Hin. apply (HL _ _ Hin).
+Qed.
+
+Lemma TL_of_decl n e st st' : efrag e = true -> top_ok st ->
+  compile_stmt true (SDecl n e) st = COk st' -> TL st st'.
+Proof.
+  intros HF HT HC.
+  assert (HB : cbreaks st' = cbreaks st).
+  { cbn [compile_stmt] in HC. destruct (compile_expr true e st) as [st1|] eqn:E1; [|discriminate]. cbn [bind] in HC.
+    rewrite <- (efrag_breaks e HF _ _ E1). destruct (st_define n (csym st1)) as [s' y].
+    unfold emit_set_var in HC. destruct (sscp y); apply emit_breaks in HC; exact HC. }
+  destruct (stmt_frag_sl (SDecl n e) st st' HF HC HT) as (T1 & M1 & ops & newc & C & K & R).
+  split; [exact T1|]. split; [exact M1|]. exists (solid ops), newc, [].
+  pose proof (R _ _ (N.le_refl _) (N.le_refl _)) as R0.
+  split; [apply (runs_aok _ _ _ _ _ R0)|]. split; [rewrite strip_solid; exact C|]. split; [exact K|].
+  split; [cbn [map]; rewrite app_nil_r; exact HB|]. split; [intros p []|].
+  intros nc gc Hnc Hgc. destruct (runs_bok nc gc ops (pcof st) 0 0 (R nc gc Hnc Hgc)) as [BK HH].
+  split; [exact BK|]. rewrite HH. intros p ra [].
+Qed.
+
+(* the program fragment: top-level declarations plus the control-flow fragment *)
+Definition pfrag_stmt (s : stmt) : bool :=
+  match s with SDecl _ e => efrag e | _ => cfrag_stmt s end.
+Fixpoint pfrag (p : slist) : bool :=
+  match p with SNil => true | SCons s t => pfrag_stmt s && pfrag t end.
+
+Lemma top_gsym st : top_ok st -> gsym (csym st) /\ has_gb (csym st).
+Proof.
+  intros HT. pose proof HT as (HO & HI & HN). split.
+  - split; [exact HN|]. rewrite HO. congruence.
+  - exists (index (cur (csym st))). apply top_globals. exact HT.
+Qed.
+
+Lemma pfrag_TL p : forall st st', pfrag p = true -> compile_slist true p st = COk st' -> top_ok st -> TL st st'.
+Proof.
+  induction p as [|s t IH]; intros st st' HF HC HT.
+  - simpl in HC. inversion HC; subst. apply TL_refl. exact HT.
+  - cbn [pfrag] in HF. apply andb_true_iff in HF. destruct HF as [F1 F2]. cbn [compile_slist] in HC.
+    destruct (compile_stmt true s st) as [st1|] eqn:E1; [|discriminate]. cbn [bind] in HC.
+    assert (X1 : TL st st1).
+    { destruct s; try (apply TL_of_CTL; [exact HT|]; destruct (top_gsym st HT) as [HG HGB];
+                       apply (proj1 ctl_all _ F1 st st1 E1 HG HGB)).
+      apply (TL_of_decl n e st st1 F1 HT E1). }
+    apply (TL_trans st st1 st' X1). apply (IH st1 st' F2 HC). apply X1.
+Qed.
+
+(* compile_wf: declarations, assignments, if / else-if / else, while, break,
+   for over step ranges and iterables (without loop variable), nested — if the
+   compiler succeeds (and no break is left outside a loop, which the parser
+   guarantees), its output satisfies WF.  No size guard: out-of-range
+   operands and jump targets are compile errors at HEAD. *)
+Theorem compile_wf_ctl : forall (p : slist) (st : cstate),
+  pfrag p = true -> compile p = COk st -> cbreaks st = [] ->
+  WF {| bcode := out_code (bytecode_of st); nconsts := N.of_nat (List.length (out_consts (bytecode_of st)));
+        gcount := out_gcount (bytecode_of st); lcount := out_lcount (bytecode_of st) |}.
+Proof.
+  intros p st HF HC HB. unfold compile, compile_program in HC.
+  assert (HT : top_ok cinit) by (split; [reflexivity|split; [apply inv_new|reflexivity]]).
+  destruct (pfrag_TL p cinit st HF HC HT) as ((T1 & T2 & T3) & _ & new & newc & newb & A & C & K & B & H & D).
+  simpl in C, K, B. rewrite HB in B. assert (newb = []) by (destruct newb; [reflexivity|discriminate]). subst newb.
+  unfold bytecode_of. cbn [out_code out_consts out_gcount out_lcount]. unfold st_local_count, st_global_count.
+  rewrite T3, C.
+  destruct (D (N.of_nat (List.length (cconsts st))) (index (cur (csym st))) (N.le_refl _) (N.le_refl _)) as [BK HL].
+  change (pcof cinit) with 0 in BK, HL.
+  apply bok_WF; [exact BK|].
+  destruct (holes _ _ new 0 (AH 0)) as [|[q ra] r] eqn:EH; [reflexivity|].
+  exfalso. apply (HL q ra). left. reflexivity.
+Qed.
